@@ -38,7 +38,7 @@ def cases(draw, closed_only, allow_verify):
         "jobs": draw(st.sampled_from([1, 1, 4])),
         # hash-state cache attached to the destination / source store (as DVC's cache and remotes have)
         # route: hashfile.transfer() directly, or the index-level collect()+push() (closed by construction)
-        "via": draw(st.sampled_from(["transfer", "transfer", "push"])) if closed_only else "transfer",
+        "via": draw(st.sampled_from(["transfer", "transfer", "push", "fetch"])) if closed_only else "transfer",
         # after the initial deliveries the destination is wiped externally while its index survives
         "wipe": draw(st.sampled_from([False, False, False, True])),
         "dst_state": draw(st.booleans()),
@@ -78,7 +78,14 @@ def execute(case, ctx, d, monitor_closure=True):  # noqa: C901, PLR0912, PLR0915
         dkw["tmp_dir"] = os.path.join(d, "idx")
         os.makedirs(dkw["tmp_dir"], exist_ok=True)
     dst = ops.make_odb(case["dst_kind"], dst_root, **dkw)
-    via_push = case.get("via") == "push" and case["src_kind"] != "staging"
+    via_push = case.get("via") in ("push", "fetch") and case["src_kind"] != "staging"
+    via_fetch = via_push and case.get("via") == "fetch"
+    if via_fetch and case["index"]:
+        # index-level fetch keeps an index of the *source* (the remote) under its tmp_dir
+        skw["tmp_dir"] = os.path.join(d, "src-idx")
+        os.makedirs(skw["tmp_dir"], exist_ok=True)
+        dkw.pop("tmp_dir", None)
+        dst = ops.make_odb(case["dst_kind"], dst_root, **dkw)
     staging_mode = case["src_kind"] == "staging"
     src = None if staging_mode else ops.make_odb(case["src_kind"], src_root, **skw)
 
@@ -123,7 +130,7 @@ def execute(case, ctx, d, monitor_closure=True):  # noqa: C901, PLR0912, PLR0915
     # ---- destination initial contents (closed) ----------------------------------------------
     from dvc_data.hashfile.db import get_index
 
-    index = get_index(dst) if case["index"] else None
+    index = get_index(dst) if case["index"] and not via_fetch else None
     ikw = {"dest_index": index} if index is not None else {}
     pre_src = ops.make_odb("local", os.path.join(d, "pre"))
     for t in tops:
@@ -229,6 +236,14 @@ def execute(case, ctx, d, monitor_closure=True):  # noqa: C901, PLR0912, PLR0915
             key = (f"o{j}",)
             idx[key] = DataIndexEntry(key=key, meta=Meta(isdir=True) if t["isdir"] else Meta(),
                                       hash_info=HashInfo("md5", t["oid"]))
+        if via_fetch:
+            from dvc_data.index.fetch import fetch
+
+            # roles swapped: the source store is the remote, the destination is the cache
+            idx.storage_map.add_cache(ObjectStorage((), dst))
+            idx.storage_map.add_remote(ObjectStorage((), src))
+            data = collect([idx], "remote")
+            return fetch(data, jobs=case["jobs"])
         idx.storage_map.add_cache(ObjectStorage((), src))
         idx.storage_map.add_remote(ObjectStorage((), dst))
         data = collect([idx], "remote", push=True)
@@ -314,7 +329,7 @@ def classes_of(case, o):
     if case.get("dst_state"):
         cl.append("dst-has-state")
     if getattr(o, "via_push", False):
-        cl.append("via=index-push")
+        cl.append("via=index-fetch" if case.get("via") == "fetch" else "via=index-push")
     if getattr(o, "wiped", False):
         cl.append("dst-wiped-index-kept" if case["index"] else "dst-wiped")
     return cl
